@@ -57,6 +57,8 @@ def rand_value(rng, maxlen=40, depth=0):
         else:
             items += rlp_str(rbytes(rng, rng.randrange(0, 9)))
     items = items[:max(0, maxlen)]  # may cut an inner item: inner bytes of a list are unconstrained
+    if rng.random() < 0.15:
+        items = rbytes(rng, rng.randrange(1, 6))   # a correctly framed list around bytes that are not items at all
     return rlp_list(items)
 
 
@@ -286,6 +288,97 @@ def tampers(rng, oracle, rec, others, n_flips=None):
     return out
 
 
+def wire_malformed_signed_canonical(rng, oracle, rec):
+    """malformed WIRE forms of a record carrying the signature of the corresponding canonical record: a decoder that
+    parses leniently and verifies over its own normalised re-encoding accepts exactly these (and must not)"""
+    key, seq, pl, sig = rec["key"], rec["seq"], list(rec["pairs"]), rec["sig"]
+    d = dict(pl)
+    out = []
+
+    def wire(pairs, seq_raw=None):
+        body = (seq_raw if seq_raw is not None else rlp_uint(seq)) + b"".join(rlp_str(k) + v for k, v in pairs)
+        return rlp_list(rlp_str(sig) + body)
+
+    if len(pl) >= 2:
+        i = rng.randrange(len(pl) - 1)
+        sw = list(pl); sw[i], sw[i + 1] = sw[i + 1], sw[i]
+        out.append(("wire_unsorted_sig_canonical", wire(sw)))
+        out.append(("wire_duplicate_sig_canonical", wire(pl[:i + 1] + [pl[i]] + pl[i + 1:])))
+        out.append(("wire_duplicate_first_sig_canonical", wire([pl[0]] + pl)))
+    # non-canonical integers / lengths on the wire, honest signature
+    if seq > 0:
+        out.append(("wire_seq_leading_zero_sig_canonical", wire(pl, seq_raw=rlp_str(b"\x00" + be(seq)))))
+    for k in (b"tcp", b"udp", b"tcp6", b"udp6"):
+        if k in d:
+            port = int.from_bytes(d[k][1:] if d[k][0] >= 0x80 else d[k], "big") if d[k] != b"\x80" else 0
+            for lab, v in (("leading_zero", rlp_str(b"\x00" + be(port))), ("wide", rlp_str(be(port + 65536))), ("wide8", rlp_str(be(port + 2**56)))):
+                p2 = [(kk, v if kk == k else vv) for kk, vv in pl]
+                out.append(("wire_port_%s_sig_canonical" % lab, wire(p2)))
+            break
+    # a short string in long form
+    for idx, (k, v) in enumerate(pl):
+        if 0x81 <= v[0] <= 0xB7:
+            n = v[0] - 0x80
+            p2 = list(pl); p2[idx] = (k, b"\xb8" + bytes([n]) + v[1:])
+            out.append(("wire_long_form_short_string_sig_canonical", wire(p2)))
+            break
+    return out
+
+
+def honest_with_duplicates(rng, oracle, key, seq, base):
+    """the legal empty key (and an ordinary key) repeated at the front / in the middle: both signed over the wire bytes
+    and signed over the de-duplicated record (first value / last value)"""
+    out = []
+    for dk in (b"", b"a", b"zz"):
+        v1, v2 = rlp_str(rbytes(rng, 2)), rlp_str(rbytes(rng, 3))
+        rest = [(k, v) for k, v in sorted(base.items()) if k != dk]
+        wire_pairs = sorted(rest + [(dk, v1)]) 
+        i = [k for k, _ in wire_pairs].index(dk)
+        dup = wire_pairs[:i] + [(dk, v1), (dk, v2)] + wire_pairs[i + 1:]
+        for lab, signed in (("wire", dup), ("last", wire_pairs[:i] + [(dk, v2)] + wire_pairs[i + 1:]), ("first", wire_pairs)):
+            content = rlp_list(rlp_uint(seq) + b"".join(rlp_str(k) + v for k, v in signed))
+            sg = key.sign(oracle, content)
+            body = rlp_uint(seq) + b"".join(rlp_str(k) + v for k, v in dup)
+            out.append(("duplicate_key_%s_signed_over_%s" % (dk.hex() or "empty", lab), rlp_list(rlp_str(sg) + body)))
+    return out
+
+
+NEIGHBOURS = {b"udp6": [b"udp4", b"udp-", b"udp\x00", b"udp5"], b"udp": [b"uc", b"udo", b"ud"], b"tcp6": [b"tcp5", b"tcp\x00", b"tcp-x"], b"tcp": [b"tco", b"tc", b"t"],
+              b"ip6": [b"ip5", b"ip\x00", b"ip-"], b"ip": [b"io", b"i", b"id2", b"idx"], b"id": [b"ic", b"i", b"hz"]}
+
+
+def ill_typed_after_neighbour(rng, oracle, key, seq, base):
+    """an ill-typed reserved value directly preceded (in key order) by a custom key that sorts just before it"""
+    out = []
+    bad = {b"udp6": [b"\x83\x01\x00\x00", b"\x82\x00\x50", b"\xc1\x01"], b"udp": [b"\x83\x01\x00\x00", b"\x82\x00\x50"], b"tcp6": [b"\x83\x01\x00\x00", b"\xc0"],
+           b"tcp": [b"\x83\x01\x00\x00"], b"ip6": [b"\x84\x01\x02\x03\x04", b"\x91" + b"\x01" * 17], b"ip": [b"\x85\x01\x02\x03\x04\x05", b"\x83\x01\x02\x03"], b"id": [b"\x82v5", b"\xc2v4"]}
+    for rk, nbs in NEIGHBOURS.items():
+        nb = rng.choice(nbs)
+        for b in bad[rk][:2]:
+            pairs = dict(base)
+            pairs[nb] = rlp_str(rbytes(rng, 2))
+            pairs[rk] = b
+            out.append(("ill_typed_%s_after_%s" % (rk.decode(), nb.hex()), record_bytes(oracle, key, seq, sorted(pairs.items()))[0]))
+        ok = dict(base); ok[nb] = rlp_str(rbytes(rng, 2))
+        out.append(("valid_with_neighbour_key", record_bytes(oracle, key, seq, sorted(ok.items()))[0]))
+    return out
+
+
+def huge_records(rng, oracle, key, sizes=(65536 + 250, 65536 + 300, 65536, 65536 + 301, 2 * 65536 + 100, 70000)):
+    """correctly signed records far above the limit whose length is small modulo 2^16"""
+    out = []
+    for total in sizes:
+        pairs = {b"id": rlp_str(b"v4"), key.entry: rlp_str(key.pub)}
+        lo, hi = 0, total
+        # find the filler length that gives exactly `total` bytes
+        for n in range(max(0, total - 200), total):
+            pairs[b"zfill"] = rlp_str(b"x" * n)
+            if enc_len(7, pairs, 16 if key.scheme == "toy" else 64) == total:
+                break
+        out.append(("huge_%d" % total, record_bytes(oracle, key, 7, sorted(pairs.items()))[0]))
+    return out
+
+
 def der_int(b):
     b = b.lstrip(b"\x00") or b"\x00"
     if b[0] & 0x80:
@@ -440,7 +533,8 @@ def rand_tval(rng):
 
 
 CLIENT_LIST = rlp_list(rlp_str(b"Nimbus") + rlp_str(b"v1.2.3"))
-RAW_POOL = [b"\x82V4", b"\x83v4\x00", rlp_str(CLIENT_LIST), CLIENT_LIST, b"\x82ab", b"\xc2ab", b"", b"\x80", b"\x05", b"\x00", b"\x81\x05", b"\x81\x80", b"\x84\x01\x02\x03\x04", b"\x84\x01\x02\x03\x04\xff", b"\x01\x02",
+RAW_POOL = [b"\xc2\x81\x05", b"\xc1\x82", b"\xc3\xb8\x01\x00", b"\xc1\xc1", b"\xc2\xc1\x81", b"\xc4\x83\x00\x00\x01", b"\xc1\xb8", b"\xc2\x00\x81",
+            b"\x82V4", b"\x83v4\x00", rlp_str(CLIENT_LIST), CLIENT_LIST, b"\x82ab", b"\xc2ab", b"", b"\x80", b"\x05", b"\x00", b"\x81\x05", b"\x81\x80", b"\x84\x01\x02\x03\x04", b"\x84\x01\x02\x03\x04\xff", b"\x01\x02",
             b"\xc0", b"\xc1\x80", b"\xc2\x01", b"\xc3\x01\x02", b"\x85ab", b"\xb8\x03abc", b"\x82\x00\x50", b"\x82\x76\x34", b"\x82\x76\x35",
             b"\x83\x01\x00\x00", b"\x90" + b"\x11" * 16, b"\x82\x01\x00\x82\x01\x00", b"\xf8\x38" + b"\x01" * 56, b"\xb8\x38" + b"a" * 56]
 
@@ -491,9 +585,13 @@ def rand_op(rng, keyslots, own_entry, pubs):
         return "%s %s %s" % (rng.choice(["remove_udp4", "remove_udp6", "remove_tcp", "remove_tcp6"]), slot, fail)
     if c < 0.64:
         b = rng.choice(["none", hx(b"7fcb567"), hx(b"")])
-        return "set_client_info %s %s %s %s %s" % (slot, fail, hx(rng.choice([b"Nethermind", b"", b"x" * 30])), hx(rng.choice([b"1.9.53", b"v"])), b)
+        return "set_client_info %s %s %s %s %s" % (slot, fail, hx(rng.choice([b"Nethermind", b"", b"x" * 30, b"n" * 55, b"n" * 56, b"n" * 57, b"\x7f", "\u00e9".encode()])), hx(rng.choice([b"1.9.53", b"v", b"w" * 56, b"\x00"])), b)
     if c < 0.72:
-        return "%s %s %s %s %d" % (rng.choice(["set_udp_socket", "set_tcp_socket"]), slot, fail, raddr(rng).hex(), rng.choice(PORT_POOL))
+        a = raddr(rng)
+        ext = ""
+        if len(a) == 16 and rng.random() < 0.35:
+            ext = rng.choice(["%3", "%0^7", "%4294967295", "%1^1048575"])   # scope id / flow info: not part of what a record stores
+        return "%s %s %s %s%s %d" % (rng.choice(["set_udp_socket", "set_tcp_socket"]), slot, fail, a.hex(), ext, rng.choice(PORT_POOL))
     if c < 0.78:
         return "%s %s %s" % (rng.choice(["remove_udp_socket", "remove_udp6_socket", "remove_tcp_socket", "remove_tcp6_socket"]), slot, fail)
     if c < 0.86:
